@@ -512,6 +512,14 @@ func (n *npCtx) noteAtom(a string, v ssa.Value) {
 			// -1 <= r <= len(x)  (and r + len(sep) <= len(x) when r >= 0: added on demand)
 			n.addLe(lin{"", -1}, lin{a, 0})
 			n.addLe(lin{a, 0}, lin{n.lenAtom(x.Call.Args[0]), 0})
+			// a match of a non-empty pattern starts before the end: r <= len(x) - 1 (also true for r == -1)
+			nonEmpty := name == "strings.IndexRune" || name == "strings.IndexByte" || name == "strings.LastIndexByte"
+			if s, ok := constStr(x.Call.Args[1]); ok && s != "" {
+				nonEmpty = true // Index/LastIndex with a non-empty separator, IndexAny with a non-empty set
+			}
+			if nonEmpty {
+				n.addLe(lin{a, 0}, lin{n.lenAtom(x.Call.Args[0]), -1})
+			}
 		case "unicode/utf8.RuneLen":
 			n.addLe(lin{"", -1}, lin{a, 0})
 			n.addLe(lin{a, 0}, lin{"", 4})
